@@ -273,4 +273,196 @@ Proof.
     rewrite H1, H2 in *. constructor; ti_crush.
     unfold want_ok in i_want0. rewrite H1 in i_want0. exact i_want0.
 Qed.
+
+(* ---- the initial state satisfies the invariant ---- *)
+
+Lemma filter_none : forall {B} (f : B -> bool) l, (forall x, In x l -> f x = false) -> filter f l = [].
+Proof.
+  induction l as [|x l IH]; intros H; [reflexivity|]. simpl. rewrite (H x) by (left; reflexivity).
+  apply IH. intros y Hy. apply H. right; exact Hy.
+Qed.
+
+Lemma filter_row : forall t ch, t < n ->
+  filter (fun it : nat * list A => Nat.eqb (fst it) t) (map (fun u => (u, ch)) (seq 0 n)) = [(t, ch)].
+Proof.
+  intros t ch Ht.
+  replace n with (t + (1 + (n - S t))) by lia.
+  rewrite seq_app, map_app, filter_app. cbn [Nat.add]. rewrite (seq_app 1), map_app, filter_app.
+  cbn [seq map filter fst]. rewrite Nat.eqb_refl.
+  rewrite !filter_none; [reflexivity| |].
+  - intros [u c] Hin. apply in_map_iff in Hin. destruct Hin as [v [E Hv]]. inversion E; subst.
+    apply in_seq in Hv. cbn [fst]. apply Nat.eqb_neq. lia.
+  - intros [u c] Hin. apply in_map_iff in Hin. destruct Hin as [v [E Hv]]. inversion E; subst.
+    apply in_seq in Hv. cbn [fst]. apply Nat.eqb_neq. lia.
+Qed.
+
+Lemma pending_items : forall t cs, t < n -> pending t (DSending A (items_of A n cs)) = cs.
+Proof.
+  intros t cs Ht. cbn [pending]. induction cs as [|c cs IH]; [reflexivity|].
+  unfold items_of in *. cbn [flat_map]. rewrite filter_app, map_app, IH, filter_row by exact Ht. reflexivity.
+Qed.
+
+Lemma items_targets : forall cs, Forall (fun it : nat * list A => fst it < n) (items_of A n cs).
+Proof.
+  intros cs. apply Forall_forall. intros [u ch] Hin. unfold items_of in Hin.
+  apply in_flat_map in Hin. destruct Hin as [c [_ Hin]]. apply in_map_iff in Hin.
+  destruct Hin as [v [E Hv]]. inversion E; subst. apply in_seq in Hv. cbn [fst]. lia.
+Qed.
+
+Theorem inv_init : Inv (init A n chunks).
+Proof.
+  split.
+  - split; [split; [discriminate|]|].
+    + intros H. exfalso. apply (H (items_of A n chunks)). reflexivity.
+    + intros l E. inversion E; subst. apply items_targets.
+  - intros t Ht. cbn [init dst tg bclosed]. unfold tinit.
+    pose proof (pending_items t chunks Ht) as P.
+    constructor; cbn [buf sst started eng got wclosed rclosed nmsg is_writing rem_of]; try solve [intuition (try congruence; try discriminate; try lia)].
+    all: try solve [intros _; split; [reflexivity|]; right; rewrite P; exact chunks_nonempty].
+    all: try solve [intros _; rewrite P; cbn [concat app]; reflexivity].
+    all: try solve [unfold want_ok; reflexivity].
+Qed.
+
+(* ---- no reachable state short of "finished" is stuck ---- *)
+
+Lemma target_can_move_if_writing : forall s t rem,
+  Inv s -> t < n -> sst A (tg A s t) = SWriting A rem -> exists s', step s s'.
+Proof.
+  intros s t rem [G HT] Ht Hw. pose proof (HT t Ht) as I. destruct I.
+  destruct (rclosed A (tg A s t)) eqn:Hr.
+  - eexists. eapply st_write_fail; eauto.
+  - destruct (eng A (tg A s t)) as [|w|] eqn:He.
+    + eexists. eapply st_estart; eauto. apply i_writing0. rewrite Hw. reflexivity.
+    + destruct w as [[|m]|].
+      * eexists. eapply st_enough; eauto.
+      * eexists. eapply st_transfer; eauto. discriminate.
+      * eexists. eapply st_transfer; eauto. discriminate.
+    + destruct (Nat.eq_dec (nmsg A (tg A s t)) 0) as [E|E].
+      * eexists. eapply st_report; eauto.
+      * exfalso. apply i_rclosed0 in E. congruence.
+Qed.
+
+Theorem progress : forall s, Inv s -> dst A s <> DFinished A -> exists s', step s s'.
+Proof.
+  intros s HI Hnf. pose proof HI as [[G1 G2] HT].
+  destruct (dst A s) as [items| |] eqn:Hd; [| |congruence].
+  - (* D is sending *)
+    destruct items as [|[t ch] rest].
+    + eexists. apply st_close. exact Hd.
+    + assert (Ht : t < n) by (specialize (G2 _ eq_refl); inversion G2; assumption).
+      destruct (lt_dec (length (buf A (tg A s t))) cap) as [Hl|Hl].
+      * eexists. eapply st_send; eauto.
+      * (* the buffer is full: the sender side of t can move *)
+        pose proof (HT t Ht) as I. destruct I.
+        destruct (buf A (tg A s t)) as [|c b'] eqn:Hb; [unfold cap in Hl; simpl in Hl; lia|].
+        destruct (sst A (tg A s t)) as [|rem| |] eqn:Hs.
+        -- eexists. eapply st_take; eauto.
+        -- eapply target_can_move_if_writing; eauto.
+        -- eexists. eapply st_drain; eauto.
+        -- destruct (i_done0 eq_refl) as [B _]. discriminate.
+  - (* D waits for the engines *)
+    assert (Hbc : bclosed A s = true) by (apply G1; intros l; discriminate).
+    destruct (forallb (fun t => reported A (tg A s t)) (seq 0 n)) eqn:Hall.
+    + eexists. apply st_finish; [exact Hd|]. intros t Ht. rewrite forallb_forall in Hall. apply Hall. apply in_seq. lia.
+    + (* some target has not reported *)
+      assert (Hex : exists t, t < n /\ nmsg A (tg A s t) = 0).
+      { destruct (forallb_forall (fun t => reported A (tg A s t)) (seq 0 n)) as [_ F].
+        destruct (existsb (fun t => negb (reported A (tg A s t))) (seq 0 n)) eqn:Ex.
+        - apply existsb_exists in Ex. destruct Ex as [t [Hin Hr]]. apply in_seq in Hin. exists t. split; [lia|].
+          unfold reported in Hr. rewrite negb_involutive in Hr. apply Nat.eqb_eq. exact Hr.
+        - exfalso. rewrite F in Hall; [discriminate|]. intros t Hin.
+          destruct (reported A (tg A s t)) eqn:Er; [reflexivity|].
+          assert (existsb (fun t0 => negb (reported A (tg A s t0))) (seq 0 n) = true).
+          { apply existsb_exists. exists t. split; [exact Hin|]. rewrite Er. reflexivity. }
+          congruence. }
+      destruct Hex as [t [Ht Hn0]]. pose proof (HT t Ht) as I. destruct I.
+      assert (Hpend : pending t (DWait A) = []) by reflexivity.
+      destruct (eng A (tg A s t)) as [|w|] eqn:He.
+      * (* engine not started *)
+        destruct (started A (tg A s t)) eqn:Hst.
+        -- eexists. eapply st_estart; eauto.
+        -- destruct (i_unstarted0 eq_refl) as [Hs [B|B]]; [|rewrite Hpend in B; congruence].
+           destruct (buf A (tg A s t)) as [|c b'] eqn:Hb; [congruence|].
+           eexists. eapply st_take; eauto.
+      * destruct w as [[|m]|].
+        -- eexists. eapply st_enough; eauto.
+        -- (* reading *)
+           destruct (sst A (tg A s t)) as [|rem| |] eqn:Hs.
+           ++ destruct (buf A (tg A s t)) as [|c b'] eqn:Hb.
+              ** eexists. eapply st_idle_closed; eauto.
+              ** eexists. eapply st_take; eauto.
+           ++ eapply target_can_move_if_writing; eauto.
+           ++ eexists. eapply st_eof; eauto; [discriminate|apply i_wclosed0; left; reflexivity|rewrite Hs; reflexivity].
+           ++ eexists. eapply st_eof; eauto; [discriminate|apply i_wclosed0; right; reflexivity|rewrite Hs; reflexivity].
+        -- destruct (sst A (tg A s t)) as [|rem| |] eqn:Hs.
+           ++ destruct (buf A (tg A s t)) as [|c b'] eqn:Hb.
+              ** eexists. eapply st_idle_closed; eauto.
+              ** eexists. eapply st_take; eauto.
+           ++ eapply target_can_move_if_writing; eauto.
+           ++ eexists. eapply st_eof; eauto; [discriminate|apply i_wclosed0; left; reflexivity|rewrite Hs; reflexivity].
+           ++ eexists. eapply st_eof; eauto; [discriminate|apply i_wclosed0; right; reflexivity|rewrite Hs; reflexivity].
+      * eexists. eapply st_report; eauto.
+Qed.
+
+(* ---- executions ---- *)
+
+Inductive steps : nat -> state -> state -> Prop :=
+  | steps_0 : forall s, steps 0 s s
+  | steps_S : forall k s s1 s2, step s s1 -> steps k s1 s2 -> steps (S k) s s2.
+
+Theorem steps_bounded : forall k s s', steps k s s' -> k + mu s' <= mu s.
+Proof.
+  induction 1 as [|k s s1 s2 H1 _ IH]; [lia|]. pose proof (step_decreases _ _ H1). lia.
+Qed.
+
+Lemma inv_steps : forall k s s', Inv s -> steps k s s' -> Inv s'.
+Proof. induction 2; [assumption|]. apply IHsteps. eapply inv_step; eauto. Qed.
+
+(* once finished, every target has reported *)
+Definition all_reported (s : state) : Prop :=
+  dst A s = DFinished A -> forall t, t < n -> nmsg A (tg A s t) = 1.
+
+Lemma all_reported_step : forall s s', Inv s -> all_reported s -> step s s' -> all_reported s'.
+Proof.
+  intros s s' [G HT] Hr Hs. unfold all_reported in *.
+  destruct Hs; cbn [dst tg].
+  1-2: intros Hd; discriminate.
+  1: { intros _ t Ht. specialize (H0 t Ht). unfold reported in H0. apply negb_true_iff in H0. apply Nat.eqb_neq in H0.
+       destruct (HT t Ht). lia. }
+  all: intros Hd u Hu; pose proof (Hr Hd u Hu) as Hru;
+       (destruct (Nat.eq_dec u t) as [->|Hne];
+        [rewrite upd_same; cbn [nmsg]; subst x; first [exact Hru|reflexivity]|rewrite upd_other by exact Hne; exact Hru]).
+Qed.
+
+Lemma all_reported_steps : forall k s s', Inv s -> all_reported s -> steps k s s' -> all_reported s'.
+Proof.
+  induction 3; [assumption|]. apply IHsteps; [eapply inv_step; eauto|eapply all_reported_step; eauto].
+Qed.
+
+(* the statement about all schedules: from the initial state, whatever the
+   order in which the goroutines move,
+   (1) an execution has at most mu(init) steps;
+   (2) a state that is not finished can always make a step (no deadlock);
+   (3) in a finished state every target has reported exactly once, and its
+       engine has read exactly what it had to: the whole content, or its first
+       k bytes *)
+Theorem all_schedules : forall k s,
+  steps k (init A n chunks) s ->
+  k <= mu (init A n chunks) /\
+  (dst A s <> DFinished A -> exists s', step s s') /\
+  (dst A s = DFinished A ->
+     forall t, t < n -> nmsg A (tg A s t) = 1 /\ got A (tg A s t) = reads_spec A (want_of t) all).
+Proof.
+  intros k s H. pose proof (inv_steps _ _ _ inv_init H) as HI.
+  split; [pose proof (steps_bounded _ _ _ H); lia|].
+  split; [apply progress; exact HI|].
+  intros Hd t Ht.
+  assert (Hr : all_reported s).
+  { eapply all_reported_steps; [apply inv_init| |exact H]. intros E. discriminate. }
+  specialize (Hr Hd t Ht). split; [exact Hr|].
+  destruct HI as [_ HT]. destruct (HT t Ht). destruct i_nmsg0 as [_ N].
+  assert (E : eng A (tg A s t) = EReturned) by (apply N; lia).
+  unfold want_ok in i_want0. rewrite E in i_want0. exact i_want0.
+Qed.
+
 End Proofs.
